@@ -172,6 +172,16 @@ class ProcSetup:
             pt.set(pvmod, "find_best_fit", stub_fit)
 
     def run(self):
+        # the flux stub may rename state held in input objects in place (name_state): start every path from
+        # fresh input objects so that no name leaks from one explored path into the next
+        ic = self.cond.initial_feed_composition
+        if not hasattr(self, "_ic0"):
+            self._ic0 = (ic.p, ic.type)
+        self.cond.initial_feed_composition = build.comp(*self._ic0)
+        if getattr(self, "P0", None):
+            if not hasattr(self, "_P00"):
+                self._P00 = [(P.value, P.units) for P in self.P0]
+            self.P0 = tuple(build.perm(v, u) for v, u in self._P00)
         self.calls.clear()
         self.fit_calls.clear()
         self.membrane.calls.clear()
